@@ -84,6 +84,11 @@ type c07Cfg struct {
 	// FlushTimeoutS is ingest.flush_timeout_seconds; 0 = out of reach (3600). Histories that
 	// use the "hang" fault run with the smallest real value (1 s) and contain no hold actions.
 	FlushTimeoutS int `json:"flush_timeout_s,omitempty"`
+	// RelWALDir runs the history with wal.directory = "./data/wal" (the shipped default, a
+	// RELATIVE path) and the process working directory inside the per-history temp dir, so
+	// the lifted main() wiring receives the directory exactly as configured. Histories run
+	// one at a time, the working directory is restored when the history ends.
+	RelWALDir bool `json:"relative_wal_dir,omitempty"`
 }
 
 // c07Action kinds: write hold release fail heal rotate age tick flush restart
@@ -464,6 +469,7 @@ type c07World struct {
 	class  map[string]int // WAL file base name -> 0 young | 1 middle-aged | 2 older than safeAge
 	res    c07Result
 	tmu    sync.Mutex
+	prevWD string
 }
 
 const (
@@ -494,6 +500,18 @@ func newC07World(tb c07Fataler, cfg c07Cfg, guards bool) *c07World {
 		tb.Fatalf("HARNESS local backend: %v", err)
 	}
 	w.backend = &c07Backend{Backend: local, gated: map[int][]int64{}, stored: map[int64]int{}, trace: w.tracef}
+	walDir := filepath.Join(root, "wal")
+	if cfg.RelWALDir {
+		wd, err := os.Getwd()
+		if err != nil {
+			tb.Fatalf("HARNESS getwd: %v", err)
+		}
+		if err := os.Chdir(root); err != nil {
+			tb.Fatalf("HARNESS chdir: %v", err)
+		}
+		w.prevWD = wd
+		walDir = "./data/wal"
+	}
 	flushTimeout := 3600 // out of reach
 	if cfg.FlushTimeoutS > 0 {
 		flushTimeout = cfg.FlushTimeoutS
@@ -513,7 +531,7 @@ func newC07World(tb c07Fataler, cfg c07Cfg, guards bool) *c07World {
 	}
 	c.WAL = config.WALConfig{
 		Enabled:                 cfg.WAL,
-		Directory:               filepath.Join(root, "wal"),
+		Directory:               walDir,
 		SyncMode:                "async",
 		MaxSizeMB:               100,
 		MaxAgeSeconds:           86400,
@@ -638,10 +656,10 @@ func (w *c07World) walFiles() []c07WalFile {
 	}
 	paths, _ := filepath.Glob(filepath.Join(w.appCfg.WAL.Directory, "*.wal"))
 	sort.Strings(paths)
-	active := w.walW.CurrentFile()
+	active := filepath.Base(w.walW.CurrentFile()) // by name: the harness must not depend on how either side spells the directory
 	var out []c07WalFile
 	for _, p := range paths {
-		f := c07WalFile{name: filepath.Base(p), path: p, active: p == active}
+		f := c07WalFile{name: filepath.Base(p), path: p, active: filepath.Base(p) == active}
 		f.class = w.class[f.name]
 		entries, err := wal.NewReader(p, zerolog.Nop()).ReadAll()
 		if err != nil {
@@ -1105,6 +1123,9 @@ func (w *c07World) close() {
 	if w.walW != nil {
 		_ = w.walW.Close()
 	}
+	if w.prevWD != "" {
+		_ = os.Chdir(w.prevWD)
+	}
 	_ = os.RemoveAll(w.root)
 }
 
@@ -1193,6 +1214,9 @@ func c07GenHistory(t *rapid.T) c07History {
 	h.Cfg.RotateEach = rapid.IntRange(0, 5).Draw(t, "rotateEach") != 0 // 1 entry per WAL file (payload >= max size) vs one big file
 	kinds := []string{"write", "write", "write", "write", "write", "write", "write", "write", "hold", "release", "fail", "fail", "fail", "fail", "heal",
 		"rotate", "rotate", "age", "age", "tick", "tick", "tick", "flush", "restart", "recover", "recover", "recover"}
+	if h.Cfg.WAL {
+		h.Cfg.RelWALDir = rapid.IntRange(0, 2).Draw(t, "relWalDir") == 0
+	}
 	hangs := 0
 	if h.Cfg.WAL && rapid.IntRange(0, 5).Draw(t, "timeoutHistory") == 0 {
 		// storage that hangs until ingest.flush_timeout_seconds expires. The timeout is real
@@ -1274,6 +1298,9 @@ func c07Account(h c07History, r c07Result) {
 	}
 	if r.FlushFail > 0 {
 		verifkit.Class("failed-flush")
+	}
+	if h.Cfg.RelWALDir {
+		verifkit.Class("relative-wal-dir")
 	}
 	if h.Cfg.FlushTimeoutS > 0 {
 		verifkit.Class("timeout-history")
@@ -1392,6 +1419,18 @@ func TestVerifC07_CleanReplayPath(t *testing.T) {
 			t.Fatalf("HARNESS clean-path history did not exercise a failed flush + replay: %+v", r)
 		}
 		c07Report(t, h, r)
+	}
+	// the same with the WAL directory configured as shipped (relative, ./data/wal): one big
+	// file and one file per entry, plus a mid-history graceful restart before the outage
+	for _, rotateEach := range []bool{true, false} {
+		hr := c07H(true, rotateEach, c07W("mp", 1, 1), c07Restart, c07FailAll, c07W("lp", 2, 1), c07Heal, c07Rotate, c07AgeMid, c07Tick)
+		hr.Cfg.RelWALDir = true
+		rr := c07Run(t, hr, false)
+		verifkit.Eval()
+		if rr.FlushFail == 0 {
+			t.Fatalf("HARNESS relative-dir history did not exercise a failed flush: %+v", rr)
+		}
+		c07Report(t, hr, rr)
 	}
 	// a storage write that hangs until ingest.flush_timeout_seconds expires is a failed flush
 	// like any other: flagged, replayed by the next tick, stored exactly once
